@@ -92,6 +92,9 @@ RIPPLE_TABLE = np.array([
 RIPPLE_MARGIN = 1.5
 
 
+STRICT_RIPPLE_DB = 1.25   # 'about 1 dB'
+
+
 def ripple_tol_db(alpha: float, interior: bool) -> float:
     col = 2 if interior else 1
     return RIPPLE_MARGIN * float(np.interp(alpha, RIPPLE_TABLE[:, 0], RIPPLE_TABLE[:, col])) + 0.01
@@ -459,7 +462,15 @@ def check_alpha(P: C.Part, c: Dict[str, Any], nfreq: int = 192, impulse_max: int
             _viol(P, f"alpha_noise(fs={fs}, fmin={fmin_u}, fmax={fmax_u}, alpha={alpha}): two-sided density at f={float(fp[j])!r} Hz is {float(S[j])!r}, f^-alpha = {float(fp[j] ** (-alpha))!r}: "
                      f"{dev[j]:+.3f} dB (allowed {tol[j]:.3f} dB = 1.5 x worst of the reference tree; {'interior' if interior[j] else 'near a corner'}; "
                      f"effective corners {ge_lo!r}..{ge_hi!r}, {n} sections)",
-                  {"sub": "density-at-1Hz" if at1 else "ripple", "interior": bool(interior[j])}, dict(rep, f=float(fp[j])))
+                  {"sub": "density-at-1Hz" if at1 else "ripple", "interior": bool(interior[j]), "envelope": "beyond"}, dict(rep, f=float(fp[j])))
+        elif (np.abs(dev) > STRICT_RIPPLE_DB + slack).any() and getattr(P, "_d13", 0) < 4:
+            # the literal reading of "to within about 1 dB" (taken as 1.25 dB) is missed on the unchanged tree near the corners for larger
+            # alpha: recorded as known finding D13; only deviations beyond the measured reference envelope (above) are new violations
+            j = int(np.argmax(np.abs(dev) - slack))
+            P._d13 = getattr(P, "_d13", 0) + 1
+            _viol(P, f"alpha_noise(fs={fs}, fmin={fmin_u}, fmax={fmax_u}, alpha={alpha}): two-sided density at f={float(fp[j])!r} Hz deviates from f^-alpha by "
+                     f"{dev[j]:+.3f} dB (> {STRICT_RIPPLE_DB} dB; {'interior' if interior[j] else 'near a corner'}; effective corners {ge_lo!r}..{ge_hi!r}, {n} sections)",
+                  {"sub": "ripple", "interior": bool(interior[j]), "envelope": "within-reference"}, dict(rep, f=float(fp[j])))
         if inside1 and 1.0 < nyq:
             P.hit("alpha:1Hz-inside")
 
